@@ -604,6 +604,7 @@ pub fn run(ctx: &Ctx) -> Report {
         st
     });
     total.merge(tw);
+    crate::fuzzrun::replay_policy_trees(&mut total, judge_tree);
     let tr = crate::combo::run_triples(ctx.seed, &crate::combo::supported_kinds(), ctx.tier.pick(64, 4), judge_tree, tree_json);
     total.merge(tr);
     let rt = run_shards(16, |shard| {
